@@ -28,6 +28,9 @@ gbit = PrivVal(0 if WHERE == "false" else 1)
 def first_use():
     a, b = PrivVal(3), PrivVal(5)
     t = a < b                                   # the library imports pysnark.boolean / pysnark.fixedpoint itself here
+    # the constants the battery below uses are met for the first time here, inside the region (anything the library remembers
+    # about a constant - a converted bound, a cached wire - was then built while the guard was active)
+    a.assert_le(7); a.assert_lt(7); b.assert_ge(3); a.assert_eq(3); a.assert_ne(7); a.assert_range(2, 7); u = (a + 3 - 1) * 2; v = a < 7
     import pysnark.branching, pysnark.fixedpoint, pysnark.array, pysnark.pack, pysnark.linalg, pysnark.ggh_hash
     try:
         import pysnark.poseidon_hash
@@ -55,6 +58,7 @@ if "constants" in PARTS:
     res["fxp_times_const"] = (f * 2.5).val()
     res["fxp_cmp_const"] = (f < 1.75).val()
     res["int_cmp_const"] = (PrivVal(3) < 7).val()
+    PrivVal(5).assert_le(7); PrivVal(6).assert_lt(7); PrivVal(4).assert_ge(3); PrivVal(3).assert_eq(3); PrivVal(5).assert_ne(7); PrivVal(4).assert_range(2, 7)
     res["pow0"] = (PrivVal(5) ** 0).val()
     res["const_plus"] = (PrivVal(4) + 3 - 1).val()
     res["bool_and_const"] = (PrivValBool(1) & 1).val()
